@@ -64,6 +64,8 @@ def inventory(c):
         f, fn = k.split(":")
         partial[(f, fn)] = [(r.split(" /")[0], r.split(" /", 1)[1].rstrip("/")) for r in rules]
     pinned = {e["key"]: e for e in pin["entries"]}
+    pinned_else = {e["key"] for k, v in pin.items() if k.startswith("bounds_checks_elsewhere (counted") for e in v}
+    new_else = []
 
     def in_scope(e):
         if e["func"] in modelled.get(e["file"], []):
@@ -91,6 +93,8 @@ def inventory(c):
         if not in_scope(e):
             if e["kind"] in ("index", "slice", "inlined"):
                 elsewhere[e["kind"]] = elsewhere.get(e["kind"], 0) + e["count"]
+                if key not in pinned_else:
+                    new_else.append("%s:%s `%s`" % (e["file"], e["func"], e["expr"]))
             continue
         n_scope += 1
         seen.add(key)
@@ -125,7 +129,8 @@ def inventory(c):
             problems.append("pinned entry `%s` is unclassified" % k)
     stats = {"compiler_unproven_bounds_checks": inv["compiler_reports"], "entries_in_modelled_functions": n_scope,
              "pinned_entries": len(pinned), "pinned_with_lemma": n_lemma, "pinned_by_contract_or_assumption": n_contract,
-             "pinned_entries_no_longer_reported": len(gone), "bounds_checks_elsewhere (counted only)": elsewhere}
+             "pinned_entries_no_longer_reported": len(gone), "bounds_checks_elsewhere (counted only)": elsewhere,
+             "bounds_checks_elsewhere_not_in_the_pinned_classification (counted only)": new_else[:40]}
     return ("; ".join(problems[:12]) + (" … (%d in all)" % len(problems) if len(problems) > 12 else "")) if problems else None, stats, drift_funcs
 
 
@@ -183,6 +188,14 @@ def main(tier, replay=None):
                     model[f[1]] = f[2].split("|")
         return lines, model, (me[-800:] if rc != 0 else "")
 
+    per_key = {}
+
+    def violation(key, what, rep):
+        """one report per key (the first, i.e. lowest case); the number of further hits goes to the evidence"""
+        per_key[key] = per_key.get(key, 0) + 1
+        if per_key[key] == 1:
+            c.violation(key, what, rep)
+
     stat = {"requests": 0, "by_state": {}, "by_class": {}, "by_method": {}, "events": 0, "events_beyond_consensus": 0, "liveness_probes": 0,
             "race_schedules": 0, "model_cases": 0, "model_predicts_error": 0, "distinct": set(), "unknown_fields": set()}
     samples = []
@@ -227,7 +240,7 @@ def main(tier, replay=None):
                             rep["worker"] = worker + ["-only", k]
                     what = "%s in state '%s' answered with a %s: %s | request %s" % (
                         method, state, "panic" if cls.startswith("panic") else "stall (no answer within the deadline)", info[:300], req[:300])
-                    c.violation(cls if cls.startswith("panic") else "stall:" + method, what, rep)
+                    violation(cls if cls.startswith("panic") else "stall:" + method, what, rep)
                 # correspondence with the model
                 if cid in model:
                     pred = model[cid]
@@ -264,22 +277,22 @@ def main(tier, replay=None):
                 worker = ["-worker", "-scen", scen, "-inst", inst, "-part", part, "-nreq", str(int(k) + 1)]
                 rep = {"case": "%s/%s/%s/%s" % (scen, inst, part, k), "event": ev, "result": cls, "liveness": live, "detail": detail[:1500], "worker": worker}
                 if cls.startswith("panic") or cls == "stall":
-                    c.violation(cls if cls.startswith("panic") else "stall:event", "chain event '%s': %s %s" % (ev, cls, detail[:300]), rep)
+                    violation(cls if cls.startswith("panic") else "stall:event", "chain event '%s': %s %s" % (ev, cls, detail[:300]), rep)
                 elif live == "dead" and not beyond:
-                    c.violation("wedge:" + re.sub(r"[^a-z0-9_-]+", "-", ev.lower()), "after chain event '%s' (%s) the follower no longer processes an ordinary block: %s" % (ev, cls, detail[:300]), rep)
+                    violation("wedge:" + re.sub(r"[^a-z0-9_-]+", "-", ev.lower()), "after chain event '%s' (%s) the follower no longer processes an ordinary block: %s" % (ev, cls, detail[:300]), rep)
                 if live != "-":
                     stat["liveness_probes"] += 1
             elif t == "L" and len(f) >= 5:
                 stat["liveness_probes"] += 1
                 if f[4] != "ok":
                     worker = ["-worker", "-scen", f[1], "-inst", f[2], "-part", f[3], "-nreq", "100000"]
-                    c.violation("liveness:" + f[1], "after the requests of instance %s/%s/%s the follower no longer processes an ordinary block: %s" % (f[1], f[2], f[3], f[5] if len(f) > 5 else ""),
+                    violation("liveness:" + f[1], "after the requests of instance %s/%s/%s the follower no longer processes an ordinary block: %s" % (f[1], f[2], f[3], f[5] if len(f) > 5 else ""),
                                 {"case": "/".join(f[1:4]), "worker": worker})
             elif t == "X" and len(f) >= 7:
                 _, scen, inst, part, k, what = f[:6]
                 worker = ["-worker", "-scen", scen, "-inst", inst, "-part", part, "-nreq", str(int(k) + 1 if k.lstrip("-").isdigit() and int(k) >= 0 else 100000)]
                 if what == "background-panic":
-                    c.violation(f[6], "a background goroutine of the wallet panicked (its Recover() logs FATAL and the process exits) at case %s of %s/%s/%s: %s" % (k, scen, inst, part, (f[7] if len(f) > 7 else "")[:600]),
+                    violation(f[6], "a background goroutine of the wallet panicked (its Recover() logs FATAL and the process exits) at case %s of %s/%s/%s: %s" % (k, scen, inst, part, (f[7] if len(f) > 7 else "")[:600]),
                                 {"case": "%s/%s/%s/%s" % (scen, inst, part, k), "detail": (f[7] if len(f) > 7 else "")[:3000], "worker": worker})
                 elif what in ("worker-died",):
                     corr_fail.append(("harness", "worker process of %s/%s/%s died: %s" % (scen, inst, part, f[6][:300]), {"worker": worker}))
@@ -340,12 +353,14 @@ def main(tier, replay=None):
         "model_cases_compared": stat["model_cases"], "model_cases_where_the_model_predicts_an_error": stat["model_predicts_error"],
         "disagreements_checked": stat["model_cases"] + stat["requests"] + stat["events"],
         "correspondence_failures": len(corr_fail),
+        "violating_cases_by_key": per_key,
         "inventory": inv_stats,
         "index_hint_probe": stall_note,
         "request_fields_without_a_pool": sorted(stat["unknown_fields"]),
         "samples": samples,
         "modelled_functions": json.load(open(os.path.join(V.ROOT, "corpus", "C19_inventory.json")))["modelled_functions"],
-        "not_explored": "GetClientStatus and SendRawTransaction (need the p2p stack / mass-core's ProcessTx), Start/Stop/RunGateway, the gRPC and HTTP plumbing, "
+        "not_explored": "GetClientStatus (needs the p2p stack), Start/Stop/RunGateway, the gRPC and HTTP plumbing; SendRawTransaction is explored up to the verdict of "
+                        "mass-core's ProcessTx (the generated transactions are unsigned and are all rejected there), "
                         "proccessReceivedTx's two p2p look-ups (unconfirmed transactions are delivered through the real filterTx by the verif hook)",
     })
     c.assumptions = [
